@@ -502,6 +502,9 @@ fn live_run(root: &Path, names: &[String], scratch: &Scratch, ops: &[Op], salt: 
             [] => (before, before),
             [("frame", f, true), ("marker", m, true)] => (*f, *m),
             other => {
+                if class == "Ok" {
+                    lv.violations.push(("returned_before_durable".into(), format!("op {k} {op:?} returned Ok but the store calls were {other:?}: no synced commit marker behind the returned authority")));
+                }
                 lv.violations.push(("live_store_call_pattern".into(), format!("op {k} {op:?}: store calls {other:?} (class {class})")));
                 (marks.first().map_or(before, |x| x.1), p.store.seg_len())
             }
@@ -555,9 +558,10 @@ struct Pred<'a> {
 
 /// `k` = index of the operation in flight (files as they were before it), `cut` = absolute byte offset.
 #[allow(clippy::too_many_arguments)]
-fn crash_and_recover(root: &Path, names: &[String], scratch: &Scratch, lv: &Live, files_at: usize, cut: u64, post: &[Op], pred: &Pred<'_>, salt: &str, probe_norepair: bool) -> Out1 {
+fn crash_and_recover(root: &Path, names: &[String], scratch: &Scratch, lv: &Live, files_at: usize, cut: u64, post: &[Op], pred: &Pred<'_>, salt: &str) -> Out1 {
     let mut o = Out1::default();
     let dir = root.join("crash");
+    let cut = cut.min(lv.seg.len() as u64);
     let seg = &lv.seg[..cut as usize];
     if let Err(e) = materialise(&dir, &lv.files[files_at], seg) {
         o.violations.push(("TOOL".into(), format!("materialise: {e}")));
@@ -615,6 +619,11 @@ fn crash_and_recover(root: &Path, names: &[String], scratch: &Scratch, lv: &Live
         o.violations.push(("bare_recover_failed".into(), format!("cut {cut}: {}", o.bare)));
     }
     o.refused = o.bare == "WalTailNotClean";
+    // a COMPLETE frame without its complete commit marker is an uncommitted tail the coordinator must refuse (ADR 0026)
+    let whole_frame_tail = lv.bounds.iter().any(|b| b.2 > b.0 && b.1 <= cut && cut < b.2);
+    if whole_frame_tail && !o.refused {
+        o.violations.push(("uncommitted_frame_not_refused".into(), format!("cut {cut}: a complete frame without commit marker is on disk and ExternalActionCoordinatorV1::recover answered {}", o.bare)));
+    }
     if o.tail == "clean" && o.refused {
         o.violations.push(("clean_tail_refused".into(), format!("cut {cut}")));
     }
@@ -624,8 +633,12 @@ fn crash_and_recover(root: &Path, names: &[String], scratch: &Scratch, lv: &Live
         }
     }
     // ---- 2b. observation: the host skips the repair because the coordinator did not refuse
-    if probe_norepair && o.tail != "clean" && o.bare == "Ok" {
-        o.norepair = Some(no_repair_probe(root, names, scratch, lv, files_at, cut, c, salt));
+    if o.tail != "clean" && o.bare == "Ok" {
+        let (class, viol) = bare_path(root, names, scratch, lv, files_at, cut, &o.tail, must_have, salt);
+        o.norepair = Some(class);
+        if let Some(v) = viol {
+            o.violations.push(v);
+        }
     }
     // ---- 3. writable repair (twice)
     let w1 = scan(&dir, RecoveryAccessMode::Writable);
@@ -673,17 +686,16 @@ fn crash_and_recover(root: &Path, names: &[String], scratch: &Scratch, lv: &Live
     let mut had_grant: BTreeMap<String, (ExternalActionClaimV1, Hash)> = BTreeMap::new();
     let mut had_fact: BTreeMap<String, AdmittedExternalActionSettlementV1> = BTreeMap::new();
     for ret in must_have {
-        let ok = match ret {
-            Returned::Token { r, commit } => p.coord.observed_index().get(request_for(r).request_id()).is_some_and(|e| e.request_commit_digest == *commit && e.request == request_for(r)),
+        match ret {
             Returned::Grant { r, claim, commit } => {
                 had_grant.insert(r.clone(), (*claim, *commit));
-                p.coord.observed_index().get(request_for(r).request_id()).is_some_and(|e| e.claim == Some(*claim) && e.claim_commit_digest == Some(*commit))
             }
             Returned::Fact { r, fact } => {
                 had_fact.insert(r.clone(), fact.clone());
-                p.coord.admitted_settlement(request_for(r).request_id()).is_ok_and(|f| f == *fact)
             }
-        };
+            Returned::Token { .. } => {}
+        }
+        let ok = has_authority(&p.coord, ret);
         if !ok {
             o.violations.push(("returned_authority_lost".into(), format!("cut {cut}: {ret:?} was returned before the crash and is not in the recovered index")));
         }
@@ -768,52 +780,69 @@ fn crash_and_recover(root: &Path, names: &[String], scratch: &Scratch, lv: &Live
     o
 }
 
-/// The coordinator accepted a directory whose read-only scan is NOT clean (torn partial record).  A host that trusts
-/// that acceptance and skips the repair: new epoch, repeat the interrupted operation, stop, recover.  Returns a class.
+fn has_authority(c: &ExternalActionCoordinatorV1, ret: &Returned) -> bool {
+    match ret {
+        Returned::Token { r, commit } => c.observed_index().get(request_for(r).request_id()).is_some_and(|e| e.request_commit_digest == *commit && e.request == request_for(r)),
+        Returned::Grant { r, claim, commit } => c.observed_index().get(request_for(r).request_id()).is_some_and(|e| e.claim == Some(*claim) && e.claim_commit_digest == Some(*commit)),
+        Returned::Fact { r, fact } => c.admitted_settlement(request_for(r).request_id()).is_ok_and(|f| f == *fact),
+    }
+}
+
+/// The bare path: `ExternalActionCoordinatorV1::recover` ACCEPTED a directory whose read-only scan is not clean (torn
+/// partial record) - nothing tells the host to repair.  It goes on as a host would: fresh writer epoch, the first lawful
+/// operation the recovered index admits.  If that operation RETURNS its authority, a further stop + recovery (read-only
+/// scan, the prescribed writable repair, coordinator recovery) must reconstruct it and everything acknowledged before
+/// the crash.  Returns (class, violation).
 #[allow(clippy::too_many_arguments)]
-fn no_repair_probe(root: &Path, names: &[String], scratch: &Scratch, lv: &Live, files_at: usize, cut: u64, c: usize, salt: &str) -> String {
-    let dir = root.join("norepair");
+fn bare_path(root: &Path, names: &[String], scratch: &Scratch, lv: &Live, files_at: usize, cut: u64, tail: &str, must_have: &[Returned], salt: &str) -> (String, Option<(String, String)>) {
+    let dir = root.join("bare");
     if materialise(&dir, &lv.files[files_at], &lv.seg[..cut as usize]).is_err() {
-        return "tool".into();
+        return ("tool".into(), None);
     }
     let out = (|| {
         let r = match scan(&dir, RecoveryAccessMode::ReadOnly) {
             Ok(r) => r,
-            Err(e) => return format!("scan:{e}"),
+            Err(e) => return (format!("scan:{e}"), None),
         };
         let next = r.last_committed_lsn().map_or(0, |l| l.as_u64() + 1);
-        let mut p = match Proc::start(&dir, names, scratch, &format!("{salt}:nr"), next, &lv.coords) {
+        let mut p = match Proc::start(&dir, names, scratch, &format!("{salt}:bare"), next, &lv.coords) {
             Ok(p) => p,
-            Err(e) => return format!("start:{e}"),
+            Err(_) => return ("refused_at_start".into(), None),          // any refusal is lawful
         };
-        // the first operation the recovered index admits
         let mut done = None;
         'f: for n in names {
             for o in ["record", "claim", "settle"] {
                 let op = (o.to_string(), n.clone(), if o == "settle" { "s1".to_string() } else { "ok".to_string() });
-                let class = p.apply(&op);
-                if class == "Ok" {
+                if p.apply(&op) == "Ok" {
                     done = Some(op);
                     break 'f;
                 }
             }
         }
-        let Some(op) = done else { return "no_op_admitted".into() };
-        let after = p.coord.clone();
+        let Some(op) = done else { return ("no_operation_admitted".into(), None) };
+        let Some(ret) = p.returned.last().cloned() else { return ("no_authority_returned".into(), None) };
         drop(p);
-        match scan(&dir, RecoveryAccessMode::ReadOnly) {
-            Err(e) => format!("acked_then_log_unreadable:{}", e.chars().take_while(|ch| ch.is_ascii_alphanumeric() || *ch == '(').collect::<String>()),
-            Ok(r2) => {
-                if r2.transactions.len() == c + 1 {
-                    match FilesystemWalStore::open(&dir, WalSegmentId::from_raw(1)).ok().map(|s| ExternalActionCoordinatorV1::recover(&s)) {
-                        Some(Ok(c2)) if c2 == after => "survived".into(),
-                        _ => "acked_then_recovery_differs".into(),
-                    }
-                } else {
-                    format!("acked_then_lost:{}:{}", op.0, tail_class(r2.tail_posture))
-                }
-            }
+        let head = format!("cut {cut}: ExternalActionCoordinatorV1::recover answered Ok on a directory whose read-only scan says tail '{tail}' (torn partial record); with a fresh writer epoch {op:?} then returned {ret:?}; after the next stop");
+        let viol = |what: &str, d: String| Some((format!("bare_recover_accepts_torn_tail:{what}"), format!("{head} {d}")));
+        if let Err(e) = scan(&dir, RecoveryAccessMode::ReadOnly) {
+            return ("acked_then_log_unreadable".into(), viol("log_unreadable", format!("the read-only scan fails: {e}")));
         }
+        let w = match scan(&dir, RecoveryAccessMode::Writable) {
+            Ok(w) => w,
+            Err(e) => return ("acked_then_log_unreadable".into(), viol("log_unreadable", format!("the writable recovery fails: {e}"))),
+        };
+        let next2 = w.last_committed_lsn().map_or(0, |l| l.as_u64() + 1);
+        let p2 = match Proc::start(&dir, names, scratch, &format!("{salt}:bare2"), next2, &lv.coords) {
+            Ok(p) => p,
+            Err(e) => return ("acked_then_log_unreadable".into(), viol("log_unreadable", format!("recovery after the prescribed repair fails: {e}"))),
+        };
+        if !has_authority(&p2.coord, &ret) {
+            return ("acked_then_lost".into(), viol("ack_lost", format!("the prescribed repair + recovery yields {:?}: the acknowledged step is gone", postures(&p2.coord, names))));
+        }
+        if let Some(m) = must_have.iter().find(|m| !has_authority(&p2.coord, m)) {
+            return ("acked_then_lost".into(), viol("ack_lost", format!("{m:?}, acknowledged before the crash, is gone")));
+        }
+        ("survived".into(), None)
     })();
     let _ = fs::remove_dir_all(&dir);
     out
@@ -900,6 +929,10 @@ fn model_case(cx: &mut Ctx, case: &Value, line: usize) -> Value {
             }
         }
     };
+    if let Some((k, d)) = lv.violations.first() {
+        // the live process itself broke the property (e.g. an authority returned without a synced commit marker)
+        return json!({"verdict":"violation","kind":k,"detail":d,"all":lv.violations.iter().map(|(k, _)| k.clone()).collect::<BTreeSet<_>>(),"info":{"live":true}});
+    }
     let mut drift: Vec<String> = Vec::new();
     for (i, (pc, pp)) in pre_pred.iter().enumerate() {
         if lv.classes[i] != *pc {
@@ -936,7 +969,7 @@ fn model_case(cx: &mut Ctx, case: &Value, line: usize) -> Value {
         }
     }
     let post_ops: Vec<Op> = pred.post.iter().map(|x| x.0.clone()).collect();
-    let mut out = crash_and_recover(&cx.root, &names, &scratch, &lv, files_at, cut, &post_ops, &pred, &format!("c{line}"), case["probe_norepair"].as_bool().unwrap_or(false));
+    let mut out = crash_and_recover(&cx.root, &names, &scratch, &lv, files_at, cut, &post_ops, &pred, &format!("c{line}"));
     out.violations.extend(lv.violations.iter().cloned());
     drift.extend(out.drift.iter().cloned());
     finish(&out, drift, json!({"cut": cut, "part": cr[5], "cls": cr[6], "tx": cr[4], "seg_len": lv.seg.len()}))
@@ -990,6 +1023,9 @@ fn sweep_case(cx: &mut Ctx, case: &Value) -> Value {
         Ok(l) => l,
         Err(e) => return json!({"verdict":"violation","kind":"live_process_failed","detail":e}),
     };
+    if let Some((k, d)) = lv.violations.first() {
+        return json!({"verdict":"violation","kind":k,"detail":format!("sweep {name}: {d}"),"info":{"live":true}});
+    }
     let n = lv.seg.len() as u64;
     let mut offsets = 0u64;
     let mut agg = Out1::default();
@@ -999,7 +1035,15 @@ fn sweep_case(cx: &mut Ctx, case: &Value) -> Value {
     let (mut refused, mut repaired, mut continued, mut accepted_unclean) = (0u64, 0u64, 0u64, 0u64);
     let pred = |post: &[Op]| Pred { tail: None, bare: None, rec_posts: None, post: post.iter().map(|o| (o.clone(), String::new(), Vec::new())).collect() };
     let boundaries: BTreeSet<u64> = lv.bounds.iter().flat_map(|b| [b.0, b.1, b.2]).collect();
-    let mut b = 0u64;
+    let mut by_kind: BTreeMap<String, Value> = BTreeMap::new();
+    let mut by_kind_n: BTreeMap<String, u64> = BTreeMap::new();
+    // replay aid: {"sweep":name,"only":[offsets]} cuts at the listed bytes only
+    let only: Option<Vec<u64>> = case["only"].as_array().map(|a| a.iter().filter_map(Value::as_u64).filter(|x| *x <= n).collect());
+    let mut only_i = 0usize;
+    let mut b = match &only {
+        Some(v) => v.first().copied().unwrap_or(n + 1),
+        None => 0u64,
+    };
     while b <= n {
         // the files (writer-epoch ledger) as they were before the operation in flight; at a transaction boundary the
         // ledger of either side is a physical possibility
@@ -1010,7 +1054,7 @@ fn sweep_case(cx: &mut Ctx, case: &Value) -> Value {
         }
         for fa in variants {
             let pr = pred(&post);
-            let mut o = crash_and_recover(&cx.root, &names, &scratch, &lv, fa, b, &post, &pr, &format!("s{name}{b}"), true);
+            let mut o = crash_and_recover(&cx.root, &names, &scratch, &lv, fa, b, &post, &pr, &format!("s{name}{b}"));
             // result classes are not predicted here: drop class drift
             o.drift.clear();
             offsets += 1;
@@ -1026,8 +1070,11 @@ fn sweep_case(cx: &mut Ctx, case: &Value) -> Value {
                 norep_first.entry(c.clone()).or_insert(b);
             }
             for (k, d) in o.violations {
-                if agg.violations.len() < 20 {
-                    agg.violations.push((k, format!("sweep {name} byte {b} (files as before op {fa}): {d}")));
+                *by_kind_n.entry(k.clone()).or_default() += 1;
+                if !by_kind.contains_key(&k) {
+                    let d = format!("sweep {name} byte {b} (files as before op {fa}): {d}");
+                    by_kind.insert(k.clone(), json!({"offset": b, "files_as_before_op": fa, "detail": d}));
+                    agg.violations.push((k, d));
                 }
             }
         }
@@ -1038,12 +1085,18 @@ fn sweep_case(cx: &mut Ctx, case: &Value) -> Value {
                 next = nb;
             }
         }
+        if let Some(v) = &only {
+            only_i += 1;
+            next = v.get(only_i).copied().unwrap_or(n + 1);
+        }
         b = next;
     }
     agg.violations.extend(lv.violations.iter().cloned());
     let mut v = finish(&agg, Vec::new(), json!({"sweep": name, "seg_len": n, "bounds": lv.bounds.iter().map(|b| json!([b.0, b.1, b.2])).collect::<Vec<_>>(), "live_classes": lv.classes}));
     v["sweep"] = json!({"offsets": offsets, "tails": tails, "refused": refused, "repaired": repaired, "continued_ops": continued,
                          "bare_accepted_unclean": accepted_unclean, "norepair": norep, "norepair_first_offset": norep_first});
+    v["by_kind"] = json!(by_kind);
+    v["by_kind_count"] = json!(by_kind_n);
     v
 }
 
